@@ -237,6 +237,65 @@ example :
       | _ => false) = true := by
   decide +kernel
 
+private def exHetero : KV :=
+  .cons "emissions" (.list (.cons (.obj (.cons "rep" (.obj (.cons "rate" (.int 1) .nil)) .nil))
+    (.cons (.obj (.cons "rep" (.obj (.cons "dur" (.int 8) .nil)) .nil))
+    (.cons (.obj (.cons "file" (.str "x.csv") .nil)) .nil)))) .nil
+
+/-- a one-at-a-time design in the per-set form (set 0 varies `rep.rate`, set 1 `rep.dur`, set 2
+`file`): every set holds its own value and the BASE values of what the other sets list -/
+example :
+    (match vary exMaps exBase none "virtual_world" 3 exHetero with
+      | .ok [s0, s1, s2] =>
+        (match get? ["emissions", "rep", "rate"] (.obj s0.vw), get? ["emissions", "rep", "dur"] (.obj s0.vw),
+               get? ["emissions", "rep", "rate"] (.obj s1.vw), get? ["emissions", "rep", "dur"] (.obj s1.vw),
+               get? ["emissions", "rep", "rate"] (.obj s2.vw), get? ["emissions", "file"] (.obj s2.vw),
+               get? ["emissions", "file"] (.obj s1.vw) with
+          | some a, some b, some c, some d, some e, some f, some g =>
+            J.beq a (.int 1) && J.beq b (.int 365) && J.beq c (.float 65 (-4)) && J.beq d (.int 8) &&
+              J.beq e (.float 65 (-4)) && J.beq f (.str "x.csv") && J.beq g (.str "e.csv")
+          | _, _, _, _, _, _, _ => false)
+      | _ => false) = true := by
+  decide +kernel
+
+/-- `set_independence`: set `i` of a virtual-world analysis is a function of the base parameters,
+the index `i` and the slices set `i` itself applies (`slicesOf n i vars`) — of nothing else.  Two
+analyses of the same base whose descriptions agree on what set `i` lists produce the same set `i`,
+whatever the other sets list (other paths, other values, another number of sets): no state is
+carried from set to set.  (The model computes every set from `base.vw`; the correspondence feeds it
+heterogeneous per-set descriptions — one-at-a-time designs — so a working copy that is not reset
+between sets shows as a disagreement and as a frame violation of the oracle.) -/
+theorem set_independence {maps : Maps} {base : PH} {sens sens' : Option String} {n n' : Nat}
+    {vars vars' : KV} {sets sets' : List PH} {i : Nat} {s s' : PH} {sl : List (String × List J)}
+    (h : vary maps base sens "virtual_world" n vars = .ok sets) (hs : sets[i]? = some s)
+    (h' : vary maps base sens' "virtual_world" n' vars' = .ok sets') (hs' : sets'[i]? = some s')
+    (hsl : slicesOf n i vars = some sl) (hsl' : slicesOf n' i vars' = some sl) : s = s' := by
+  obtain ⟨_, hspec⟩ := vw_sets h
+  obtain ⟨_, hspec'⟩ := vw_sets h'
+  obtain ⟨a1, a2, a3, a4, a5, a6⟩ := hspec i s hs
+  obtain ⟨b1, b2, b3, b4, b5, b6⟩ := hspec' i s' hs'
+  rw [alterVariations_eq_applySlices _ n i vars base.vw sl hsl] at a6
+  rw [alterVariations_eq_applySlices _ n' i vars' base.vw sl hsl'] at b6
+  rw [a6] at b6
+  rw [a5] at b5
+  cases s
+  cases s'
+  simp only [Except.ok.injEq] at b5 b6
+  simp_all
+
+/-- and that function is explicit: the virtual world of set `i` is `applySlices` of the BASE virtual
+world (not of set `i-1`) -/
+theorem set_is_base_plus_own_slices {maps : Maps} {base : PH} {sens : Option String} {n : Nat}
+    {vars : KV} {sets : List PH} {i : Nat} {s : PH} {sl : List (String × List J)}
+    (h : vary maps base sens "virtual_world" n vars = .ok sets) (hs : sets[i]? = some s)
+    (hsl : slicesOf n i vars = some sl) :
+    applySlices (.high maps.vw) base.vw sl = .ok s.vw ∧ alterSimInfo base.sim i = .ok s.sim ∧
+    s.programs = base.programs ∧ s.out = base.out := by
+  obtain ⟨_, hspec⟩ := vw_sets h
+  obtain ⟨a1, _, a3, _, a5, a6⟩ := hspec i s hs
+  rw [alterVariations_eq_applySlices _ n i vars base.vw sl hsl] at a6
+  exact ⟨a6, a5, a1, a3⟩
+
 /-- `out_folder`: `alter_simulation_info(i)` rewrites the output folder to `<out>/<i>` and nothing
 else; different sets get different folders -/
 theorem out_folder {sim sim' : KV} {i : Nat} (h : alterSimInfo sim i = .ok sim') :
